@@ -336,6 +336,11 @@ impl Sparse<f64> {
         else {
             panic!( "Sparse matrix solve_bicg: itol must be 1 or 2." );
         }
+        // A zero right-hand side must not be used as a divisor, and a guess that already
+        // satisfies the tolerance is accepted as it is (as in the other solvers).
+        let bnrm = if bnrm == 0.0 { 1.0 } else { bnrm };
+        err = z.norm_2() / bnrm;
+        if err <= tol { return Ok( 0 ); }
         let mut rho_2 = 1.0;
         let mut iter: usize = 0;
         while iter < max_iter {
